@@ -20,8 +20,9 @@ def run(ctx):
     ctx.rule("R04.b", "every flush call outside the flush itself is controlled by `not <saved batching flag>` or `not <read of the flag>` (flush iff outermost)", floor=5)
     ctx.rule("R04.c", "coalescing: a watcher already queued (by identity) is not queued again, a different one is; the flush maps (name, what) -> last event in queue order, "
                       "empties both queues before running the watchers and loops until no event is left", floor=4)
+    ctx.rule("R04.g", "the flush runs the queued watchers in precedence order on every path (stable sort of the queue)", floor=1)
     ctx.rule("R04.d", "discard_events restores copies of the queues taken before the body (not aliases)", floor=2)
-    ctx.rule("R04.e", "update(...) captures the previous values and links before applying, and _ParametersRestorer.__exit__ re-applies them through _update", floor=2)
+    ctx.rule("R04.e", "update(...) captures the previous values (of every given key) and links before applying, and _ParametersRestorer.__exit__ re-applies them through _update", floor=3)
     ctx.rule("R04.f", "trigger re-submits the CURRENT values of the named parameters (plus the transient True of Events) under the trigger flag", floor=1)
     ctx.not_decided += ["delivery counts and event contents under arbitrary nestings of batch/update/discard/trigger (need execution)"]
 
@@ -133,6 +134,9 @@ def run(ctx):
     else:
         ctx.fail("R04.c", fl, fl.node, "the flush does not empty both queues before running the watchers inside a `while <events>` loop: events raised by the watchers are lost or delivered twice")
 
+    from checks.shared import dispatch_loops_sorted
+    dispatch_loops_sorted(ctx, "R04.g", ((P + "Parameters._batch_call_watchers", "_execute_watcher"),))
+
     # ------------------------------------------------------------ R04.d
     de = ctx.repo.func(P + "discard_events")
     dc = ctx.facts.cfg(de)
@@ -197,6 +201,23 @@ def run(ctx):
                 why = "the previous links are captured after _update already applied the new values"
     (ctx.ok if ok else ctx.fail)("R04.e", up, ret[0] if ret else up.node,
                                  "links are captured before _update applies the new values; the restorer receives the values _update replaced and those links" if ok else why)
+    upd = ctx.repo.func(P + "Parameters._update")
+    rets = [st for st in walk_stmts(upd.node) if isinstance(st, ast.Return) and isinstance(st.value, ast.Name)]
+    ctx.require(rets, "_update no longer returns the replaced values")
+    rdefs = [st for st in walk_stmts(upd.node) if isinstance(st, ast.Assign) and any(isinstance(t, ast.Name) and t.id == rets[0].value.id for t in st.targets)]
+    good = False
+    why = "_update does not build the values to restore with one comprehension over the given keys"
+    if len(rdefs) == 1 and isinstance(rdefs[0].value, ast.DictComp):
+        dc = rdefs[0].value
+        g0 = dc.generators[0]
+        over_kwargs = "kwargs" in norm(g0.iter)
+        keyvar = norm(dc.key)
+        extra = [norm(c) for c in g0.ifs if not (isinstance(c, ast.Compare) and isinstance(c.ops[0], ast.In) and norm(c.left) == keyvar)]
+        good = over_kwargs and not extra and isinstance(dc.value, ast.Subscript) and norm(dc.value.slice) == keyvar
+        if extra:
+            why = "the values to restore are filtered by `%s`: a key given to update() is not put back when the context exits" % " and ".join(extra)
+    (ctx.ok if good else ctx.fail)("R04.e", upd, rdefs[0] if rdefs else upd.node,
+                                   "every key given to update that names a parameter is recorded with its previous value" if good else why)
     ex = ctx.repo.method(P + "_ParametersRestorer", "__exit__")
     init = ctx.repo.method(P + "_ParametersRestorer", "__init__")
     stored = {t.attr: norm(st.value) for st in walk_stmts(init.node) if isinstance(st, ast.Assign) for t in st.targets if isinstance(t, ast.Attribute)}
